@@ -733,8 +733,10 @@ def r4(ctx):
                     target = target or cand
         ctx.need(target is not None, f"{f.site()}: no comparison of `{pv}.size` with a threshold was found")
         found_target[cls] = target
+        # a local that only names the configured size (target_size = self.plate_size) is read through
+        target_read = U(inline(ast.parse(target, mode="eval").body, {k: v for k, v in fenv.items() if isinstance(v, ast.Attribute)}))
         if want_target is not None:
-            ctx.check("R4", f"{f.site()}::threshold", target == want_target, f"plates are compared with {want_target}", f"plates are compared with `{target}`, not `{want_target}`")
+            ctx.check("R4", f"{f.site()}::threshold", target_read == want_target, f"plates are compared with {want_target}", f"plates are compared with `{target}`, not `{want_target}`")
         ops = {}
         for t, body in arms:
             b = N.b(inline(t, penv), integer=True)
